@@ -335,6 +335,38 @@ def check(ctx):
             ctx.fail("forward-start option starts at the wrong time index: floor(start/dt) in doubles lands one index early",
                      case | {"start_index": got, "expected": want}, key="cliquet._start_index:floor(start/dt)",
                      detail={"ratio": float(ratio)})
+    # ---------------- strikes and prices that are NOT representable in single precision, on float64 paths: IEEE subtraction is
+    # correctly rounded, so the payoff must be the double nearest to the exact contract value of the doubles involved
+    import pfhedge.nn.functional as fnl2
+    import pfhedge.instruments as I2
+    for it in range(60 if ctx.tier == "quick" else 900):
+        kind = g.choice(["european", "lookback", "american_binary", "european_binary"])
+        call = g.chance(0.5)
+        K = g.choice([0.9, 1.1, 1.03, 1 / 3, 0.7, 1.0000001])
+        N, T = g.choice([1, 3, 6]), g.choice([1, 2, 5])
+        x = torch.tensor([[g.r.uniform(0.5, 1.6) for _ in range(T)] for _ in range(N)], dtype=torch.float64)
+        if g.chance(0.3):
+            x[0, -1] = K          # tie with the strike (as a double)
+        via = g.choice(["functional", "derivative"])
+        case = {"kind": kind, "call": call, "strike": K, "dtype": "float64", "via": via, "paths": [[float(v) for v in r] for r in x.tolist()]}
+        ctx.case(case, True, tag="nondyadic-strike")
+        ctx.traces += 1
+        if via == "functional":
+            st, v, _ = call_impl(getattr(fnl2, kind + "_payoff"), x, call=call, strike=K)
+        else:
+            stock = I2.BrownianStock(dtype=torch.float64)
+            stock.register_buffer("spot", x.clone())
+            cls = {"european": I2.EuropeanOption, "lookback": I2.LookbackOption, "american_binary": I2.AmericanBinaryOption,
+                   "european_binary": I2.EuropeanBinaryOption}[kind]
+            st, v, _ = call_impl(cls(stock, call=call, strike=K, maturity=max(T - 1, 1) * stock.dt).payoff)
+        if st != "ok":
+            ctx.fail("payoff raised on a float64 path with a non-dyadic strike", case, key=f"{via}.{kind}.payoff:error", detail=v)
+            continue
+        exp = [float(contract(kind, call, F(K), [F(float(z)) for z in r])) for r in x.tolist()]
+        got = [float(z) for z in v.tolist()]
+        if v.dtype != torch.float64 or got != exp:
+            ctx.fail("payoff on a float64 path is not the (correctly rounded) contract value at the given strike: strike or prices rounded through "
+                     "a lower precision?", case, key=f"{via}.{kind}.payoff:double-precision", detail={"impl": got, "contract": exp})
     return ctx.finish(
         rule="functional payoffs on dyadic paths (ties with the strike/extremes frequent, T=1,2,.., float32/64), derivative objects "
              "with injected buffers and random clause sequences (re-registration included), forward-start index sweeps over dt/start; "
